@@ -60,6 +60,7 @@ func (fc *FnCtx) execInstr(in ssa.Instruction, st *State) {
 		id := fc.S.Fresh("closure."+fn.Name(), SInt)
 		fc.S.Assume(app(SBool, ">", id, IntLit(0)), "closure value is non-nil")
 		fc.top.E.closures[id.S] = fv
+		fc.describeClosure(id, fn, fv.Bindings)
 		fc.vals[x] = Val{Fn: fv, T: id}
 	case *ssa.Lookup:
 		fc.vals[x] = fc.lookup(st, x)
@@ -310,6 +311,11 @@ func (fc *FnCtx) unop(st *State, x *ssa.UnOp) Val {
 		fc.assumeWF(st, t, elem, "load "+x.Name())
 		if fc.E.nonNilField(x.X) {
 			fc.S.Assume(Implies(st.PC, Not(isNilTerm(t))), "declared nonnil field")
+		}
+		if a.P != nil && a.P.Root == RGlobal && len(a.P.Path) == 0 && t.Sort == SIfc && types.Identical(elem, types.Universe.Lookup("error").Type()) {
+			// package-level error values (var ErrX = errors.New(...)) are set once at init and never nil
+			fc.S.Assume(Implies(st.PC, Not(isNilTerm(t))), "package-level error variable is not nil")
+			fc.notes.Assumed["package-level error variables are initialised once and never nil"] = true
 		}
 		// closures stored in memory: recover the function value if known
 		return tv(t)
@@ -657,7 +663,10 @@ func (fc *FnCtx) typeAssert(st *State, x *ssa.TypeAssert) Val {
 			fc.S.Assume(Implies(okv, ok), "interface assertion succeeds only on non-nil")
 			return Val{Tup: []Val{tv(Ite(okv, v, Term{"ifc_nil", SIfc})), tv(okv)}}
 		}
-		fc.notes.Assumed["interface-to-interface assertion at "+siteOf(fc, x)+" succeeds (method sets not modelled)"] = true
+		// x.(I) panics on a nil interface; whether the dynamic type implements I is not modelled
+		fc.oblige(st, "no-panic", "type-assert", siteOf(fc, x), ok, fmt.Sprintf("%s is not a nil interface", x.X.Name()))
+		fc.S.Assume(Implies(st.PC, ok), "continues only if the assertion holds")
+		fc.notes.Assumed["interface-to-interface assertion at "+siteOf(fc, x)+": the dynamic type implements the target interface (method sets not modelled)"] = true
 		return tv(v)
 	}
 	has := fc.TE.HasTag(x.AssertedType, v)
